@@ -149,12 +149,13 @@ def inlined(facts, body, depth=MAX_DEPTH, skip=None, tag=None, sugar=False):
             b["stmts"].append({"k": "assign", "lhs": {"l": off_l + 1 + ai, "p": []}, "rv": {"k": "use", "op": a}, "span": span, "inl_arg": cb.id})
         b["term"] = {"k": "goto", "t": off_b, "span": span, "inl_call": cb.id, "inl_site": t}
     if sg is not None:
-        from .desugar import thread_jumps, split_switch_joins, eliminate_dead_stores
+        from .desugar import thread_jumps, split_switch_joins, eliminate_dead_stores, scalarize_fields
         for _ in range(8):
             n1 = thread_jumps(blocks)
             n2 = split_switch_joins(blocks, locals_)
-            n3 = eliminate_dead_stores(blocks, locals_, body.argc) if (n1 or n2) else 0
-            if not n1 and not n2:
+            n4 = scalarize_fields(blocks, locals_, body.argc)
+            n3 = eliminate_dead_stores(blocks, locals_, body.argc) if (n1 or n2 or n4) else 0
+            if not n1 and not n2 and not n4:
                 break
     d["locals"] = locals_
     d["blocks"] = blocks
